@@ -5,10 +5,11 @@ from .world import CLUSTER_LPS, CONTEXT_FREE, LINEAR, TREE_LPS
 TIER_SCALE = 1      # set by the driver: 1 for quick, 2 for thorough (longer histories in half of the runs)
 
 ARM_POOLS = {
-    "int": [1, 2, 3, 4, 5, 6, 7, 8, 9],
+    # zero, negative and large labels on purpose (a label is a key, never a position, a truth value or a small number)
+    "int": [1, 2, 3, 4, 5, 6, 7, 8, 9, 0, -1, -4, 1000003],
     # labels of unequal length on purpose (fixed-width numpy string dtypes truncate silently: 'Arm1' vs 'Arm10')
-    "str": ["a", "bb", "ccc", "d", "ee", "f", "gggg", "h", "ii"],
-    "float": [0.5, 1.5, 2.5, 3.5, 4.5, 5.5, 6.5, 7.5, 8.5],
+    "str": ["a", "bb", "ccc", "d", "ee", "f", "gggg", "h", "ii", "10", "2", "B", "zzz"],
+    "float": [0.5, 1.5, 2.5, 3.5, 4.5, 5.5, 6.5, 7.5, 8.5, -1.5, 0.25, 100000.5, 12.0],
 }
 METRICS_EXACT = ["cityblock", "chebyshev", "sqeuclidean", "euclidean"]
 
